@@ -20,6 +20,8 @@ structure TablesCanon (T : NQ.Tables) : Prop where
     IRI may contain (`Props/C04Tables.lean: gen_iriRaw_iff`). -/
 def IriRaw (T : NQ.Tables) (v : Str) : Prop := ∀ c ∈ v, lookup (T.iriEsc false) 0 c = 0
 
+instance (T : NQ.Tables) (v : Str) : Decidable (IriRaw T v) := by unfold IriRaw; exact inferInstance
+
 /-- Literal as the RDF abstract syntax has it: a language tag iff the datatype is rdf:langString. -/
 def WFLit (T : NQ.Tables) (dt : Str) (lang : Option Str) : Prop :=
   IriRaw T dt ∧ (lang.isSome ↔ dt = rdfLangString)
